@@ -14,13 +14,23 @@ RULE = ("seeded generator of fault histories run on the real NewReconnectableCli
         "lazy start incl. failing eager start, stream-limit exhaustion, UDP-disabled DialError on a dead connection, concurrent bursts on "
         "nil/dead/closed clients, a reconnect HELD inside configFunc / ConnFactory.New / before the handshake while further callers and "
         "Close arrive and the holds are opened in a chosen order, a failed connection attempt of every kind - first use or reconnect after a loss, one "
-        "or two failures in a row - followed directly by TCP() / UDP() / Close() on the same client) plus random scripts of calls from goroutines 0-3, kills (local socket failure or server-initiated "
+        "or two failures in a row - followed directly by TCP() / UDP() / Close() on the same client; EVERY WAY A CONNECTION CAN DIE x what happens next: "
+        "local socket read failure, local socket closed under the transport, disconnect by the server (application CONNECTION_CLOSE), silent path (idle timeout), "
+        "server restart on the same address with the same stateless reset key (stateless reset), each under client configurations with and without the Chrome "
+        "fingerprint (zero-length / non-empty connection ids) and with a short or the default idle timeout, followed by TCP() / UDP() / a parked call / a burst / a second "
+        "loss of another kind / a failing reconnect / Close; handshake-level failures that come from the peer: version negotiation failure, a peer that never answers) plus random scripts of calls from goroutines 0-3, kills (local socket failure or server-initiated "
         "disconnect), fault queues, Close at any point. Non-trivial = the history contains a second successful connect, a failing "
         "reconnect, or a Close. Distinct = distinct JSON script. Every call of a history (constructor, TCP, UDP, Close, the kick stream) runs under recover: "
         "a panicking call is a failing verdict with the history as replay (and a CPanic case = a disagreement with the model by construction); if "
-        "the test process dies all the same, the histories that were in flight are run again one at a time to name the one that kills it.")
+        "the test process dies all the same, the histories that were in flight are run again one at a time to name the one that kills it. "
+        "Loss verdict on the implementation alone: a call that runs alone and finds the client whose connection the harness killed returns ClosedError or makes a "
+        "connection attempt itself (never anything else), the socket of that client is closed at the next quiescent point, and the call after a ClosedError return - "
+        "server up, nothing made to fail - succeeds on a fresh connection (at most one failing call per loss). Every error VALUE met (returned by TCP()/UDP(), the close "
+        "reason quic-go gives for a killed connection, the error inside ConnectError) is reported by kind of a finite enum (model/C16_Loss.v errkind = c16Kinds); the class case "
+        "carries the table wrapIfConnectionClosed x kind of the working tree and fails if a terminal kind is classified recoverable.")
 ASSUMPTIONS = [
     "quic-go reports a lost connection (OpenStream / stream I/O fail with a permanent error) once the connection context is done; how fast it notices a silent peer is not modelled",
+    "the error values that reach wrapIfConnectionClosed or end a connection attempt are of one of the kinds of model/C16_Loss.v errkind (read off the pinned quic-go; every value the harness meets is checked against the enum, an unknown type breaks the tie); remote / local TransportError, HandshakeTimeoutError and net.ErrClosed are classified on constructed values only (no history on loopback produces them on an established connection)",
     "clientImpl.Close closes the PacketConn it got from the factory exactly once per call (part of the model as read; checked by the harness census on every history)",
     "configFunc / connectedFunc / ConnFactory are called back on the goroutine that holds rc.m (true of the code as read; the harness attributes boundary events to goroutines that way)",
 ]
@@ -229,6 +239,104 @@ def scripted_after_failure(rng):
     return cs
 
 
+# ---------------------------------------------------------------- the ways a connection can die
+# how the harness kills the connection / what quic-go then reports (model/C16_Loss.v errkind):
+#   sock       reading from the local socket fails            -> transport closed
+#   sockclose  the local socket is closed under the transport -> transport closed
+#   srv        the server disconnects the client              -> application error (remote)
+#   idle       the path goes silent                           -> idle timeout
+#   reset      the server restarts (same address, same stateless reset key, no memory of its connections)
+#                                                             -> stateless reset (or idle timeout if the reset is not recognised)
+# (how, noparrot, idle seconds): the client configuration decides how a loss shows up: with DisableChromeParrot the
+# connection ids are non-empty; the idle timeout is the minimum of both ends
+LOSSES = (("sock", False, 0), ("sockclose", False, 0), ("srv", False, 0), ("srv", True, 0), ("idle", False, 4), ("idle", True, 4),
+          ("reset", True, 0), ("reset", False, 4), ("reset", True, 4), ("sock", True, 0), ("sockclose", True, 4))
+FAST_LOSSES = tuple(x for x in LOSSES if x[0] not in ("idle",))
+HS_FAILS = ("hsvn", "hsblack")      # the peer offers no QUIC version we speak / the peer never answers
+
+
+def HL(steps, loss, **kw):
+    c = H(steps, **kw)
+    c["noparrot"] = bool(loss[1])
+    c["idle"] = int(loss[2])
+    return c
+
+
+def scripted_losses(rng, tier):
+    """Every way a connection can die x what happens on the reconnectable client next.  After a loss the next call reports it
+    (ClosedError) or repairs it, the dead client's socket is closed, at most one socket is open afterwards, and the FOLLOWING
+    call succeeds on a fresh connection: the number of failing calls after a loss is bounded."""
+    cs = []
+    slow = [x for x in LOSSES if x[0] == "idle"]
+    fast = list(FAST_LOSSES)
+    # the slow ones (an idle timeout takes seconds) are thinned out in the quick tier
+    losses = fast + (slow if tier != "quick" else [rng.choice(slow)])
+    for loss in losses:
+        how = loss[0]
+        lazy = rng.random() < 0.5
+        # loss, the call that reports it, the call that reconnects, ... on another goroutine, a refused dial, again
+        cs.append(HL([call(0), kill(how), call(0), call(0), call(1, "err"), call(1)], loss, lazy=lazy))
+    for loss in losses:
+        how = loss[0]
+        v = rng.randrange(5)
+        if v == 0:
+            # UDP() is the first to meet the dead connection
+            cs.append(HL([call(0), kill(how), call(0, kind="udp"), call(0), call(1, kind="udp")], loss, udp=True))
+        elif v == 1:
+            # a call is parked inside the server's dial when the connection dies
+            cs.append(HL([call(0, "gate"), kill(how), {"op": "await", "g": 0}, call(1), call(1)], loss, lazy=rng.random() < 0.5))
+        elif v == 2:
+            # two losses in a row, the second one of another kind
+            other = rng.choice([x for x in FAST_LOSSES if x[1] == loss[1] and x[2] in (0, loss[2])] or [loss])
+            cs.append(HL([call(0), kill(how), call(0), call(1), kill(other[0]), call(1), call(0), call(0)], loss))
+        elif v == 3:
+            # the reconnect after the loss fails first (every kind of failing attempt, incl. the handshake-level ones)
+            f = rng.choice(FAILS + HS_FAILS[:1])
+            cs.append(HL([call(0), kill(how), call(0), {"op": "fault", "f": [f]}, call(0), call(0), call(1)], loss, lazy=False))
+        else:
+            # Close meets the dead client: before / after the loss was reported
+            if rng.random() < 0.5:
+                cs.append(HL([call(0), kill(how), CLOSE, call(0), call(1, kind="udp")], loss))
+            else:
+                cs.append(HL([call(0), kill(how), call(0), CLOSE, call(0)], loss, lazy=False))
+    # the burst that meets a dead connection: everybody reports the loss or lands on the one fresh connection
+    loss = rng.choice(fast)
+    cs.append(HL([call(0), kill(loss[0]), {"op": "burst", "n": 3, "kind": "tcp", "mode": "ok"}, call(0), call(1)], loss))
+    # handshake-level failures that come from the peer, on first use and after a loss
+    cs.append(HL([{"op": "fault", "f": ["hsvn"]}, call(0), call(0), call(1, kind="udp")], ("", rng.random() < 0.5, 0)))
+    loss = rng.choice(fast)
+    cs.append(HL([call(0), kill(loss[0]), call(1), {"op": "fault", "f": ["hsvn", "hsconn"]}, call(1), call(0), call(0)], loss, lazy=False))
+    cs.append(H([call(0)], lazy=False, init="hsvn"))
+    if tier != "quick" or rng.random() < 0.5:
+        cs.append(HL([{"op": "fault", "f": ["hsblack"]}, call(0), call(0)], ("", rng.random() < 0.5, 0)))
+    return cs
+
+
+def random_loss(rng):
+    """random script over one client configuration: calls from goroutines 0-3, losses of every (fast) kind that configuration
+    can show, failing reconnects, Close near the end"""
+    np = rng.random() < 0.5
+    idle = rng.choice([0, 0, 4])
+    hows = [x[0] for x in FAST_LOSSES if x[1] == np and x[2] in (0, idle)] + ["sock", "srv", "sockclose"]
+    if np:
+        hows += ["reset", "reset"]
+    steps = []
+    n = rng.randint(6, 12)
+    for i in range(n):
+        r = rng.random()
+        if r < 0.55:
+            steps.append(call(rng.randrange(NG), rng.choice(["ok", "ok", "ok", "err"]), "udp" if rng.random() < 0.15 else "tcp"))
+        elif r < 0.85:
+            steps.append(kill(rng.choice(hows)))
+        elif r < 0.93:
+            steps.append({"op": "fault", "f": [rng.choice(FAILS + HS_FAILS[:1] + ("ok",))]})
+        elif i * 2 >= n:
+            steps.append(CLOSE)
+        else:
+            steps.append({"op": "burst", "n": rng.randint(2, 3), "kind": "tcp", "mode": "ok"})
+    return HL(steps, ("", np, idle), lazy=rng.random() < 0.5, udp=rng.random() < 0.8)
+
+
 def gen(rng, tier):
     cases = [{"k": "class"}] + scripted(rng)
     nrand = 10 if tier == "quick" else 700
@@ -240,6 +348,10 @@ def gen(rng, tier):
         cases.append(random_held(rng))
     # (again appended last: the stream above is unchanged for a given seed)
     cases += scripted_after_failure(rng)
+    # (again appended last) the ways a connection can die
+    cases += scripted_losses(rng, tier)
+    for _ in range(6 if tier == "quick" else 250):
+        cases.append(random_loss(rng))
     return cases
 
 
@@ -331,7 +443,20 @@ def to_coq(c, o):
     if o.get("panicked") or any(e.get("r") == "panic" for e in o["evs"]):
         # every call of the LTS ends in a Ret with one of the six return classes: a call that panics matches no run
         return "CPanic [" + "; ".join(obs_list(o)) + "]"
+    if o.get("kinds"):
+        return "CRawK [" + "; ".join(obs_list(o)) + "] [" + "; ".join(kind_term(k) for k in o["kinds"]) + "]"
     return "CRaw [" + "; ".join(obs_list(o)) + "]"
+
+
+# the enum of error kinds, in the order of model/C16_Loss.v all_kinds and of c16Kinds in the Go harness
+KINDS = ("streamlimit", "idle", "hstimeout", "appremote", "applocal", "trremote", "trlocal", "crypto", "vneg", "reset",
+         "trclosed", "netclosed", "streamreset", "eof", "deadline")
+
+
+def kind_term(k):
+    """(site, kind id, wrapped as ClosedError); an error value of none of the kinds gets the id 99 = no kind of the enum"""
+    kid = KINDS.index(k["kind"]) if k.get("kind") in KINDS else 99
+    return "(%d, %d, %s)" % (0 if k.get("site") == "wrap" else 1, kid, "true" if k.get("closed") else "false")
 
 
 def features(c, o):
@@ -358,6 +483,12 @@ def features(c, o):
         f.add("held")
     if o.get("panicked") or o.get("died"):
         f.add("panicked")
+    # the ways the connections of this history died, as quic-go reported them
+    for e in evs:
+        if e["e"] == "lost":
+            f.add("lost-" + (e.get("k") or "?").split(":")[0])
+    if any(k.get("site") == "connect" for k in o.get("kinds") or []):
+        f.add("hs-" + "-".join(sorted({k.get("kind", "?").split(":")[0] for k in o["kinds"] if k.get("site") == "connect"})))
     # the class of scripted_after_failure, recognised in what really happened: a call came back with the error of a failed
     # connection attempt and the next thing started on the client is a TCP() / UDP() / Close()
     failed = False
@@ -395,6 +526,9 @@ def fingerprint(c, o):
         return "stream-limit-classified-closed"
     if "harness" in why or "call panicked" in why:
         return None
+    if "reconnect on loss:" in why:
+        # the table of the class case and the histories are two findings: one names the error type, the other is a history
+        return "terminal-error-classified-recoverable" if c.get("k") == "class" else "loss-not-reported-or-repaired"
     if "census:" in why:
         return "socket-census"
     if "after Close" in why:
@@ -629,7 +763,7 @@ LEVEL_TEXT = ("Machine-checked Coq theorems over a labelled transition system tr
               "of clientDo, Close, and the environment's kills and fault choices): for every interleaving of any number of goroutines, kills, "
               "failing reconnects and Close calls, at most one factory socket is open and it belongs to the current client, every superseded "
               "socket is closed, a lost connection makes the observing call return ClosedError and the next call re-evaluates the config and "
-              "reports count+1, recoverable results change nothing, and Close is final; a variant that leaves rc.m while configFunc runs is refuted "
+              "reports count+1 - for every kind of terminal connection error of a finite enum (idle timeout, application / transport close from either side, TLS alert, version negotiation, stateless reset, transport or socket closed), the classification being an oracle read off the tree on every run, total over the enum, with the stream limit as the only recoverable kind, and exactly one failing call per loss - recoverable results change nothing, and Close is final; a variant that leaves rc.m while configFunc runs is refuted "
               "(two sockets at a quiescent point, a socket created after Close), which is why a whole reconnect() is one action. The model is tied to /repo on every run by replaying "
               "the boundary logs of real client/server histories against the LTS in the kernel (vm_compute) and by a regenerated "
               "classification table. The acceptor used for that replay is proved sound: every accepted log is the visible projection of a strict run of the LTS from a start state, "
